@@ -9,7 +9,7 @@ RULE = ('each event is one byte string given to one of the six G1/G2 decoders or
         'arithmetic; on Ok the decoded triple must denote exactly that point and re-encoding it in the same format must give back the '
         'input; any panic is a violation; the two executors must answer identically line by line. Inputs: every length 0..=140, valid '
         'encodings of boundary/random points, every single-bit flip of one valid encoding per case-group and sampled byte '
-        'substitutions, all 256 prefix bytes, coordinates q, q+1, 2^256-1, x+q, y+q, all-zero, all-0xFF, x without a point, twist '
+        'substitutions, all 256 prefix bytes, coordinates q, q+1, 2^256-1, x+q, y+q, all-zero, all-0xFF, x without a point, x solved so that y is purely real / purely imaginary, twist '
         'points outside the subgroup. distinct = distinct (decoder, bytes); non-trivial = the string has the exact length of the format')
 
 DEC = {
@@ -40,6 +40,8 @@ def cases(tier, seed):
             out.append(('subst', d, 0))
         for j in range(4):
             out.append(('fq2', j))
+        for j in range(3):
+            out.append(('realrhs', j))
         for j in range(2):
             out.append(('outside', j))
     return out
@@ -52,7 +54,7 @@ def required(tier):
         if DEC[d][2]:
             req.append(d + '/reject-prefix')
     req += ['g2.from_slice/reject-subgroup', 'g2.from_compressed/reject-subgroup', 'fq2.from_slice/accept', 'fq2.from_slice/reject-coord>=q',
-            'fq2.from_slice/reject-length', 'profile-agreement']
+            'fq2.from_slice/reject-length', 'profile-agreement', 'g2/y-imaginary', 'g2/y-real']
     return req
 
 
@@ -200,7 +202,28 @@ def run(ctx, spec):
             elif k == 2:
                 b = bytearray(rng.randbytes(64))
             items.append(('fq2.from_slice', bytes(b)))
-    elif kind == 'outside':
+    elif kind == 'realrhs':
+        # x in Fq2 solved so that x^3 + 5u lies in Fq: y is then purely real or purely imaginary (sign fix-up cannot change the
+        # parity of a zero real part); such points are on the twist but (almost surely) outside the subgroup
+        for _ in range(6):
+            while True:
+                b = rng.randrange(1, q)
+                a2 = (2 * b * b * b - 5) * pow(3 * b, -1, q) % q
+                a = rm.fq_sqrt(a2)
+                if a is not None:
+                    break
+            x = (a if rng.random() < 0.5 else (-a) % q, b)
+            x3 = rm.f2mul(rm.f2mul(x, x), x)
+            assert (x3[1] + 5) % q == 0
+            for pre in (b'\x02', b'\x03'):
+                items.append(('g2.from_compressed', pre + bytes.fromhex(F2.enc(x))))
+            P = points.lift_x(2, x)
+            if P is not None:
+                ctx.classes['g2/y-' + ('imaginary' if P[1][0] == 0 else 'real')] += 1
+                for d in ('g2.from_slice', 'g2.from_uncompressed'):
+                    items.append((d, enc_point(2, P, DEC[d][2])))
+        # G1: x with x^3 + 5 = 0 would give y = 0; -5 is not a cube here, so the nearest analogue is small y: skip
+
         S13, S1621 = points.small_order_points()
         T = points.rand_curve_point(rng, 2)
         sub = rm.gmul(2, rng.randrange(1, r))
